@@ -24,7 +24,7 @@ struct vh_opts O;
 #define MAX_SAMPLES 12
 #define SAMPLE_DESC 160
 #define SAMPLE_TEXT 400
-#define HSET_BITS 21
+#define HSET_BITS 23
 #define HSET_CAP (1u << HSET_BITS)
 #define CRUMB_MAX 131072
 #define MAX_NOTES 24
